@@ -129,6 +129,7 @@ def file_read_hook(st0_events_filter=None):
         r = Obj(out_ty)
         r.discr = Sym(z3.If(okv, BV64(0), BV64(1)), "isize")
         r.fields[("Ok", 0)] = buf
+        r.fields[("Err", 0)] = S.raw_io_error(st)
         st.events.append(("await", name, fargs, r))
         return [(S.poll_ready(dty, r), None)]
     return hook
@@ -257,6 +258,7 @@ def read_current_record_step(crate):
                        extra_summaries=BYTES_SUMMARIES)
     ex.call_hook = _hdr_from_raw_hook(crate)
     ex.await_hook = file_read_hook()
+    ex.classify_reads = True
     st = State()
     rr, cur, rhs, vd, size = _raw_records_state(crate, ex, st)
     rc = st.new_cell(rr)
@@ -450,6 +452,7 @@ def rawrecords_tiles_file(crate, N=2):
         st_.pc.append(z3.Implies(okk, z3.ULE(b.fields[("g", "off")].t + b.fields[("g", "len")].t, size)))
         return out
     ex.await_hook = hook
+    ex.classify_reads = True
     outs = P.drive_async(ex, st, fn, [rr])
     res.paths = len(outs)
 
